@@ -747,37 +747,40 @@ CHECKS['C13']['level_text'] = CHECKS['C13']['level_text'] + (" SINCE FIX fbc9256
 CHECKS['C13']['partial'] = [x for x in CHECKS['C13']['partial'] if not x.startswith('COUNT > 5000')] + [
     "COUNT > 5000: clamped by parseScanArgs since fbc9256 (model: parseCount); the collection-scan theorems are stated for 1 <= COUNT <= 5000, which is every COUNT that reaches them"]
 
-# C04: the proposal wait table with POOLED wait channels (work package wA2): model Node/WaitTable.lean over the regenerated
-# decisions Gen/WaitTable.lean, theorems Props/C04Wait.lean ("a request is woken only by its own result")
+# C04: the proposal wait table with POOLED wait channels (work package wA2; after fix 184e1b3: wA3): model Node/WaitTable.lean over the
+# regenerated decisions Gen/WaitTable.lean, theorems Props/C04Wait.lean ("a request is woken only by its own result")
 _p = CHECKS['C04']['props']
 CHECKS['C04']['props'] = (_p if isinstance(_p, list) else [_p]) + ['ZanVerif.Props.C04Wait']
 CHECKS['C04']['gens'] = CHECKS['C04']['gens'] + ['WaitTable']
 CHECKS['C04']['level_text'] = CHECKS['C04']['level_text'] + (" WAIT TABLE (Props/C04Wait, model Node/WaitTable): ProposeInternal / queueRequest's wait function / waitReqHeaders.release and "
-    "pkg/wait RegisterWithC / Trigger as a small-step model (wait table, one-place channels, the pool of released headers, in-flight requests; Trigger in its TWO parts: lookup+delete under the lock, store+signal "
-    "after it), over the REGENERATED decisions (stale-signal replacement test, Trigger on timeout / cancel, Trigger on a failed propose; pinned: registration before the propose call, release leaves `done` alone, "
-    "statement lists of RegisterWithC and Trigger). For EVERY schedule of any number of clients, the apply path and a pool that hands any released header to any later proposal, provided the pool never hands out a "
-    "header whose channel a half-done Trigger still targets (SAFE PICK): C04_wait_woken_only_by_own_result — a waiter that wakes with a success result does so only after `applied` of its OWN id, with exactly that "
-    "result; C04_wait_ends_once (every configuration, every schedule); C04_wait_no_registration_leak (+ neither Panicf can fire); C04_wait_atomic_trigger_suffices — safe picks follow when no waiter gives up inside the "
-    "Trigger window of its own id; C04_wait_safe_pick_is_exact — every pick that is not safe can be continued to a wrong wake-up; C04_wait_code — all of it for the configuration regenerated from the current tree. "
-    "Witnesses: the seeded variants without the replacement test (C04-m1) / without the Trigger on timeout (C04-m4) violate (a); FINDING C04_wait_FINDING_trigger_gap: the unchanged code violates (a) when a waiter "
-    "times out between the two parts of the apply path's Trigger of its id.")
+    "pkg/wait RegisterWithC / Trigger as a small-step model (wait table, one-place channels, the pool of released headers, in-flight requests), over the REGENERATED decisions (stale-signal replacement test, "
+    "Trigger on timeout / cancel, Trigger on a failed propose, Trigger stores and signals UNDER the lock [fix 184e1b3]; pinned: registration before the propose call, release leaves `done` alone, statement lists of "
+    "RegisterWithC and Trigger). For EVERY schedule of any number of clients, the apply path and a pool that hands any released header to any later proposal — no schedule condition: "
+    "C04_wait_woken_only_by_own_result — a waiter that wakes with a success result does so only after `applied` of its OWN id, with exactly that result; C04_wait_ends_once (every configuration, every schedule); "
+    "C04_wait_no_registration_leak (+ no Trigger is ever half-done, neither Panicf can fire); C04_wait_code — all of it for the configuration regenerated from the current tree. Witnesses: the seeded variants "
+    "without the replacement test (C04-m1) / without the Trigger on timeout (C04-m4) violate (a). REPAIRED DEFECT (184e1b3), kept as theorems about the pre-fix configuration Cfg.preFix (Trigger in TWO steps: "
+    "lookup+delete under the lock, store+signal after it): C04_wait_FIXED_trigger_gap_before_184e1b3 (a waiter that times out between the two parts pools an empty channel, the late signal wakes the next user of "
+    "the header with nil = success), C04_wait_fixed_schedule_now_correct (the same schedule on the code as it is), C04_wait_prefix_safe_pick_suffices / _atomic_schedule_suffices / _safe_pick_is_exact (the exact "
+    "schedule condition the old code needed).")
 CHECKS['C04']['partial'] = CHECKS['C04']['partial'] + [
-    "wait table: (a)/(c) are theorems under the schedule condition SAFE PICK only; without it the unchanged code has the wrong wake-up of C04_wait_FINDING_trigger_gap (Trigger stores and signals after dropping the lock; "
-    "a waiter that times out inside that window pools its header with an empty channel, the late signal wakes the next user of the header with a nil = success result)",
     "wait table model: one request per header (ProposeInternal appends exactly one), a header is identified with its `done` channel, sync.Pool is an adversary (any released header to any later proposal, may drop), "
-    "ids are the generator's (unique); the syncer path ProposeRawAsyncFromSyncer (wait.Register with a private channel, no pool) and double WaitRsp calls are outside the model"]
+    "ids are the generator's (unique); a Trigger that runs under the registry lock is ONE step of the model (every other access to the registration of the same id takes the same lock; the slot is read only after "
+    "the signal); the syncer path ProposeRawAsyncFromSyncer (wait.Register with a private channel, no pool) and double WaitRsp calls are outside the model"]
 # protocol waittable: schedules of the model replayed on the REAL queueRequest / ProposeInternal / wait function, pkg/wait registry and sync.Pool
 CHECKS['C04']['protos'].append(dict(name='waittable', quick_seeds=1, thorough_seeds=2))
-CHECKS['C04']['rule'] = CHECKS['C04']['rule'] + ("; protocol waittable (diff): 5 fixed scenarios (the witness schedules of Props/C04Wait) + quick 400 / thorough 20000 random sessions of 8-47 steps "
-    "propose / proposefail / applied / signal / timeout / wake on a REAL KVNode.queueRequest + wait function over the real pkg/wait registry and the real sync.Pool of request headers (node.VerifWaitNode: raft "
-    "replaced by a stand-in that accepts or refuses the proposal and keeps the drop callback; GOMAXPROCS=1, collector off: the pool is the deterministic private-slot + LIFO structure the driver mirrors); the "
-    "apply-side Trigger runs on its own goroutine and is STOPPED between its two parts (inserted hook after w.l.Unlock(), tools/instrument point trace:triggergap); every answer line (which channel a request "
-    "was registered with, registered or not at Trigger time, woken with which result, blocked, panic) is compared with the model in configuration Cfg.code; a third of the sessions lets waiters give up inside the "
-    "Trigger window. Go oracle: early-wake (a wait function returned success / an error that is not a result of its own applied entry), registration-leak, chan-full-panic; sessions with a give-up inside the "
-    "window are tagged @gap-giveup (known finding C04-trigger-gap)")
+CHECKS['C04']['rule'] = CHECKS['C04']['rule'] + ("; protocol waittable (diff): corpus/C04/waittable-trigger-gap.txt (the witness of the defect repaired by 184e1b3) + 5 fixed scenarios (the witness schedules of "
+    "Props/C04Wait) + quick 400 / thorough 20000 random sessions of 8-47 steps propose / proposefail / applied / giveup-in-window / signal / timeout / wake on a REAL KVNode.queueRequest + wait function over the real "
+    "pkg/wait registry and the real sync.Pool of request headers (node.VerifWaitNode: raft replaced by a stand-in that accepts or refuses the proposal and keeps the drop callback; GOMAXPROCS=1, collector off: "
+    "the pool is the deterministic private-slot + LIFO structure the driver mirrors); every apply-side Trigger runs on its own goroutine and is STOPPED between its delete and its store + signal (inserted hook "
+    "before the `if rd != nil` of wait.Trigger, tools/instrument point trace:triggergap) where the harness PROBES the registry lock: held (the tree since 184e1b3) — the Trigger is let go at once, `applied` is one "
+    "step; `giveup-in-window` cancels the request while the Trigger of its id is stopped there and checks that its wait function does NOT return before the Trigger is let go (the waiter's own Trigger waits for "
+    "the lock) and then pools a channel that holds the signal; not held (a tree whose Trigger drops the lock first) — the two-step behaviour is driven as before the fix and the old witness fails. Every answer line "
+    "(which channel a request was registered with, registered or not at Trigger time, woken with which result, blocked, panic) is compared with the model in configuration Cfg.code. Go oracle: early-wake (a wait "
+    "function returned success / an error that is not a result of its own applied entry), registration-leak, chan-full-panic, window-not-exclusive; findings of sessions with a give-up inside an OPEN window carry @gap-giveup")
 CHECKS['C04']['trusted'] = CHECKS['C04']['trusted'] + [
-    "protocol waittable: the recording wrapper of KVNode.w (learns the channel an id is registered with), the raft stand-in, the hook call `verifTriggerGap(id, rd != nil)` inserted after w.l.Unlock() of wait.Trigger "
-    "(a no-op unless the protocol installs its hook), channel identity by first appearance"]
+    "protocol waittable: the recording wrapper of KVNode.w (learns the channel an id is registered with), the raft stand-in, the hook call `verifTriggerGap(id, rd != nil)` inserted before the `if rd != nil` of "
+    "wait.Trigger (a no-op unless the protocol installs its hook), the TryLock probe of the registry shard (wait.VerifShardLocked), channel identity by first appearance; `giveup-in-window` lets the second "
+    "goroutine run with 50 runtime.Gosched() calls on one P before it looks whether the wait function has returned"]
 
 # C11: the error path of the apply loop clears the shared write batch (Gen/Abort.lean, Props/C11Abort.lean)
 CHECKS['C11']['props'] = CHECKS['C11']['props'] + ['ZanVerif.Props.C11Abort']
